@@ -309,6 +309,8 @@ class Loops:
         saved = dict(it.env)
 
         def elem(x):
+            if ety and not ety.startswith('tuple|'):
+                self.world.element_kind(it, x, ety)
             it.assign(gen.target, SV(x, ety))
             for c in gen.ifs:
                 if not it.truth(it.ev(c), 'comp if'):
@@ -471,6 +473,8 @@ class Loops:
             it.pc.append(rng0)
 
             def elem():
+                if ety and not ety.startswith('tuple|'):
+                    self.world.element_kind(it, at(idx), ety)
                 it.assign(gen.target, SV(at(idx), ety))
                 guard = z3.BoolVal(True)
                 for c in gen.ifs:
